@@ -286,6 +286,156 @@ nothing ready, channel not latched) to a query without a positive tick; the fixe
 theorem old_rule_unsound : reportFinishedOld 0 0 false = true ∧ reportFinishedOld 0 (-5) false = true := by decide
 theorem new_rule_fresh_agent (q : Int) : reportFinished 0 q false = false := by simp [reportFinished]
 
+/-! ### answers are consistent: while nothing is reset and no deadline passes, *finished* comes with an empty error text -/
+
+/-- executions made of readiness reports and queries only -/
+inductive ReachNR : Global → Prop where
+  | init : ReachNR Global.init
+  | spawnReady {g} (f : Flags) : ReachNR g → ReachNR (spawnTask g (.ready f))
+  | spawnQuery {g} (q : Int) (l : Bool) : ReachNR g → ReachNR (spawnTask g (.query q l))
+  | run {g} (i : Nat) : ReachNR g → ReachNR (runIdx g i)
+
+theorem all_or (a b : Flags) (h : a.all = true) : (a.or b).all = true := by
+  simp only [Flags.all, Flags.or, Bool.and_eq_true] at h ⊢
+  obtain ⟨⟨h1, h2⟩, h3⟩ := h
+  simp [h1, h2, h3]
+
+/-- what a task knows is still true of the actor (flags only grow here) -/
+def TaskJ (a : Actor) (t : Task) : Prop :=
+  match t.kind with
+  | .ready _ => t.pc = 1 → t.r.all = true → a.flags.all = true
+  | .query _ l =>
+      (1 ≤ t.pc → 0 < t.ft → a.flags.all = true) ∧ (t.pc ≤ 1 → t.answer = none) ∧
+      (∀ ans, t.answer = some ans → ans.finished = true → l = false → ans.notReady = ⟨false, false, false⟩)
+  | _ => False
+
+structure InvJ (g : Global) : Prop where
+  clockPos : 0 < g.clock
+  fin : 0 < g.actor.fin → g.actor.flags.all = true
+  tasks : ∀ t ∈ g.tasks, TaskJ g.actor t
+
+theorem notReadyOf_all (f : Flags) (h : f.all = true) : notReadyOf f = ⟨false, false, false⟩ := by
+  simp only [Flags.all, Bool.and_eq_true] at h
+  obtain ⟨⟨h1, h2⟩, h3⟩ := h
+  simp [notReadyOf, h1, h2, h3]
+
+theorem act_J (a : Actor) (now : Int) (t : Task) (hnow : 0 < now) (hfin : 0 < a.fin → a.flags.all = true) (ht : TaskJ a t) :
+    (a.flags.all = true → (act a now t).1.flags.all = true) ∧
+    (0 < (act a now t).1.fin → (act a now t).1.flags.all = true) ∧
+    (∀ t', (act a now t).2.1 = some t' → TaskJ (act a now t).1 t') := by
+  unfold TaskJ at ht
+  cases hk : t.kind with
+  | ready f =>
+    simp only [hk] at ht
+    rcases hpc : t.pc with _ | _ | n
+    · simp only [act, hk, hpc]
+      refine ⟨fun h => all_or _ _ h, fun h => all_or _ _ (hfin h), ?_⟩
+      intro t' ht'
+      simp only [Option.some.injEq] at ht'
+      subst ht'
+      simp only [TaskJ, hk]
+      intro _ h; exact h
+    · simp only [act, hk, hpc]
+      by_cases hall : t.r.all = true
+      · simp only [hall, ↓reduceIte]
+        exact ⟨fun h => h, fun _ => ht hpc hall, by intro t' h; cases h⟩
+      · simp only [hall, Bool.false_eq_true, ↓reduceIte]
+        exact ⟨fun h => h, hfin, by intro t' h; cases h⟩
+    · simp only [act, hk, hpc]
+      exact ⟨fun h => h, hfin, by intro t' h; cases h⟩
+  | query q l =>
+    simp only [hk] at ht
+    rcases hpc : t.pc with _ | _ | n
+    · simp only [act, hk, hpc]
+      refine ⟨fun h => h, hfin, ?_⟩
+      intro t' ht'
+      simp only [Option.some.injEq] at ht'
+      subst ht'
+      simp only [TaskJ, hk]
+      have hnone : t.answer = none := ht.2.1 (by omega)
+      refine ⟨fun _ h => hfin h, fun _ => hnone, ?_⟩
+      intro ans hans; rw [hnone] at hans; cases hans
+    · simp only [act, hk, hpc]
+      refine ⟨fun h => h, hfin, ?_⟩
+      intro t' ht'
+      simp only [Option.some.injEq] at ht'
+      subst ht'
+      simp only [TaskJ, hk]
+      refine ⟨fun _ h => ht.1 (by omega) h, fun h => by omega, ?_⟩
+      intro ans hans hfinished hl
+      simp only [Option.some.injEq] at hans
+      subst hans
+      simp only [reportFinished, hl, Bool.or_false, Bool.and_eq_true, decide_eq_true_eq] at hfinished
+      exact notReadyOf_all _ (ht.1 (by omega) hfinished.1)
+    · simp only [act, hk, hpc]
+      exact ⟨fun h => h, hfin, by intro t' h; cases h⟩
+  | reset => simp only [hk] at ht
+  | timeup => simp only [hk] at ht
+
+theorem taskJ_mono {a a' : Actor} (h : a.flags.all = true → a'.flags.all = true) {t : Task} (ht : TaskJ a t) : TaskJ a' t := by
+  unfold TaskJ at *
+  cases hk : t.kind with
+  | ready f => simp only [hk] at ht ⊢; exact fun h1 h2 => h (ht h1 h2)
+  | query q l => simp only [hk] at ht ⊢; exact ⟨fun h1 h2 => h (ht.1 h1 h2), ht.2.1, ht.2.2⟩
+  | reset => simp only [hk] at ht
+  | timeup => simp only [hk] at ht
+
+theorem invJ_reach {g : Global} (hr : ReachNR g) : InvJ g := by
+  induction hr with
+  | init => exact ⟨by decide, by intro h; simp [Global.init, Actor.init] at h, by intro t ht; cases ht⟩
+  | spawnReady f _ ih =>
+    refine ⟨ih.clockPos, ih.fin, ?_⟩
+    intro t ht
+    simp only [spawnTask, List.mem_append, List.mem_singleton] at ht
+    rcases ht with h | h
+    · exact ih.tasks t h
+    · subst h; simp [TaskJ]
+  | spawnQuery q l _ ih =>
+    refine ⟨ih.clockPos, ih.fin, ?_⟩
+    intro t ht
+    simp only [spawnTask, List.mem_append, List.mem_singleton] at ht
+    rcases ht with h | h
+    · exact ih.tasks t h
+    · subst h; simp [TaskJ]
+  | @run g i _ ih =>
+    unfold runIdx
+    cases hti : g.tasks[i]? with
+    | none => simpa [hti] using ih
+    | some t =>
+      simp only [hti]
+      have htmem : t ∈ g.tasks := List.mem_of_getElem? hti
+      obtain ⟨hmono, hfin', hnew⟩ := act_J g.actor g.clock t ih.clockPos ih.fin (ih.tasks t htmem)
+      refine ⟨by have := ih.clockPos; simp only; omega, hfin', ?_⟩
+      intro u hu
+      simp only at hu
+      cases hres : (act g.actor g.clock t).2.1 with
+      | none =>
+        rw [hres] at hu
+        exact taskJ_mono hmono (ih.tasks u (List.mem_of_mem_eraseIdx hu))
+      | some t' =>
+        rw [hres] at hu
+        rcases List.mem_or_eq_of_mem_set hu with h | h
+        · exact taskJ_mono hmono (ih.tasks u h)
+        · subst h; exact hnew _ hres
+
+/-- **C16(e)** as long as nothing is reset and no deadline passes, an answer is consistent whatever the
+interleaving of the reports with the query's own two reads: *finished* (for a channel that is not
+latched) comes with an empty error text -/
+theorem finished_has_empty_text {g : Global} (hr : ReachNR g) (t : Task) (ht : t ∈ g.tasks) (q : Int)
+    (hk : t.kind = .query q false) (ans : Answer) (ha : t.answer = some ans) (hf : ans.finished = true) :
+    ans.notReady = ⟨false, false, false⟩ := by
+  have h := (invJ_reach hr).tasks t ht
+  unfold TaskJ at h
+  simp only [hk] at h
+  exact h.2.2 ans ha hf trivial
+
+/-- negative witness: a query that read the state BEFORE the finished tick (the two reads swapped) can answer
+*finished* with a text that still names the key latch -/
+def swappedQuery (flagsAtFirstRead : Flags) (finAtSecondRead : Int) (q : Int) : Bool × Flags :=
+  (reportFinished finAtSecondRead q false, notReadyOf flagsAtFirstRead)
+theorem swapped_reads_inconsistent :
+    swappedQuery ⟨true, false, true⟩ 7 5 = (true, ⟨false, true, false⟩) := by decide
+
 /-! non-vacuity: three readiness reports, the last one stamps, a query with an earlier tick is told finished -/
 def run1 := runIdx
 def spawn1 := spawnTask
